@@ -266,8 +266,8 @@ theorem runU_safe {c : Cfg} (ok : GeomOk16 c.geom) (cmds : List UCmd) :
 
 /-- a quiescent lower state with `n` threads about to run programs that are safe from the empty
     holdings satisfies the invariant — whatever the tree array and the slots contain -/
-theorem LInv.init_gen {c : Cfg} (ok : GeomOk16 c.geom) (m : Mem) (inv : LowerInv c m) (n : Nat) (strict : Bool)
-    (Post : Held → Gh → Prop) (progs : Nat → Prog Held)
+theorem LInv.init_gen {α : Type} {c : Cfg} (ok : GeomOk16 c.geom) (m : Mem) (inv : LowerInv c m) (n : Nat) (strict : Bool)
+    (Post : α → Gh → Prop) (progs : Nat → Prog α)
     (hs : ∀ k, SafeL strict c.geom Post (ghOf c.geom ⟨[], []⟩) (progs k)) :
     LInv strict c.geom n c.frames Post m (fun k => Th.at (progs k)) (fun _ => ghOf c.geom ⟨[], []⟩) := by
   have okg := ok.toGeomOk
